@@ -1,19 +1,24 @@
-package iris
+package kitex
 
-// C19 driver (observer only): drives SentinelMiddleware through the
-// admitted x fallback x handler matrix and prints one C19CASE line per case.
+// C19 driver (observer only): drives SentinelServerMiddleware and SentinelClientMiddleware (normal
+// and outlier mode) through the admitted x fallback x handler matrix by calling the returned
+// endpoint.Endpoint directly with a hand-made next endpoint. Prints one C19CASE line per case.
 //
-// iris.New() (no recover middleware) + app.Build(), then app.ServeHTTP with an
-// httptest recorder. iris' own httptest package is not used because it is an
-// asserting (httpexpect) API.
+// The context carries an rpcinfo.RPCInfo whose To() is a remoteinfo.RemoteInfo, as kitex' client
+// builds it; the callee instance is set when the request is "sent" (when the next endpoint runs),
+// as kitex' load balancer does.
 
 import (
-	"net/http"
-	"net/http/httptest"
-	"strconv"
+	"context"
+	"errors"
 	"testing"
 
-	"github.com/kataras/iris/v12"
+	"github.com/alibaba/sentinel-golang/core/circuitbreaker"
+	"github.com/alibaba/sentinel-golang/core/outlier"
+	"github.com/cloudwego/kitex/pkg/discovery"
+	"github.com/cloudwego/kitex/pkg/endpoint"
+	"github.com/cloudwego/kitex/pkg/rpcinfo"
+	"github.com/cloudwego/kitex/pkg/rpcinfo/remoteinfo"
 )
 
 // >>> C19 COMMON BEGIN (generated from _common/c19_common.go.txt by _common/sync.sh)
@@ -336,59 +341,97 @@ func c19Name(ep string, admitted, fallback bool, handler string) string {
 
 // <<< C19 COMMON END
 
+var (
+	c19ErrHandler  = errors.New("c19 handler error")
+	c19ErrFallback = errors.New("c19 fallback error")
+)
+
 func TestVerifC19(t *testing.T) {
 	c19Setup(t)
-	c19Matrix(func(admitted, fallback bool, handler string) {
-		c19IrisCase(t, admitted, fallback, handler)
-	})
+	for _, ep := range []string{"SentinelServerMiddleware", "SentinelClientMiddleware", "SentinelClientMiddleware+outlier"} {
+		ep := ep
+		c19Matrix(func(admitted, fallback bool, handler string) {
+			c19KitexCase(t, ep, admitted, fallback, handler)
+		})
+	}
 }
 
-func c19IrisCase(t *testing.T, admitted, fallback bool, handler string) {
+func c19KitexCase(t *testing.T, ep string, admitted, fallback bool, handler string) {
+	outlierMode := ep == "SentinelClientMiddleware+outlier"
 	c := &c19Case{
-		Adapter:               "iris",
-		EntryPoint:            "SentinelMiddleware",
-		Resource:              c19Name("SentinelMiddleware", admitted, fallback, handler),
+		Adapter:               "kitex",
+		EntryPoint:            ep,
+		Resource:              c19Name(ep, admitted, fallback, handler),
 		AdmittedExpected:      admitted,
 		Fallback:              fallback,
 		Handler:               handler,
-		HandlerCanReturnError: false,
-		Notes:                 "iris.New() without recover middleware, app.Use(adapter), app.Build(), app.ServeHTTP; err = handler writes status 500",
+		HandlerCanReturnError: true,
 	}
 	c19Rules(t, c.Resource, admitted)
 
-	opts := []Option{WithResourceExtractor(func(iris.Context) string { return c.Resource })}
+	opts := []Option{}
+	if outlierMode {
+		// resource name comes from ServiceNameExtract(ctx): the callee service name below
+		opts = append(opts, WithEnableOutlier(func(context.Context) bool { return true }))
+		if _, err := outlier.LoadRules([]*outlier.Rule{{
+			Rule: &circuitbreaker.Rule{
+				Resource:         c.Resource,
+				Strategy:         circuitbreaker.ErrorCount,
+				RetryTimeoutMs:   3000,
+				MinRequestAmount: 1,
+				StatIntervalMs:   1000,
+				Threshold:        1000.0, // never trips: node ejection is not the subject here
+			},
+			EnableActiveRecovery: false,
+			MaxEjectionPercent:   1.0,
+			RecoveryIntervalMs:   2000,
+			MaxRecoveryAttempts:  5,
+		}}); err != nil {
+			t.Fatalf("driver set-up: outlier.LoadRules: %v", err)
+		}
+	} else {
+		opts = append(opts, WithResourceExtract(func(context.Context, interface{}, interface{}) string { return c.Resource }))
+	}
 	if fallback {
-		opts = append(opts, WithBlockFallback(func(ctx iris.Context) {
+		opts = append(opts, WithBlockFallback(func(context.Context, interface{}, interface{}, error) error {
 			c.fallbackCalled()
-			ctx.StatusCode(http.StatusTeapot)
-			_, _ = ctx.WriteString("c19 fallback")
-			ctx.StopExecution()
+			return c19ErrFallback
 		}))
 	}
-	app := iris.New()
-	app.Logger().SetLevel("disable")
-	app.Use(SentinelMiddleware(opts...))
-	app.Handle(http.MethodGet, "/c19", func(ctx iris.Context) {
+	var mw func(endpoint.Endpoint) endpoint.Endpoint
+	if ep == "SentinelServerMiddleware" {
+		mw = SentinelServerMiddleware(opts...)
+	} else {
+		mw = SentinelClientMiddleware(opts...)
+	}
+
+	to := remoteinfo.NewRemoteInfo(&rpcinfo.EndpointBasicInfo{ServiceName: c.Resource, Method: "echo"}, "echo")
+	ri := rpcinfo.NewRPCInfo(rpcinfo.EmptyEndpointInfo(), to.ImmutableView(), rpcinfo.NewInvocation(c.Resource, "echo"),
+		rpcinfo.NewRPCConfig(), rpcinfo.NewRPCStats())
+	ctx := rpcinfo.NewCtxWithRPCInfo(context.Background(), ri)
+
+	h := mw(func(ctx context.Context, req, resp interface{}) error {
 		c.handlerCalled()
+		// the load balancer picks an instance when the request is sent
+		if r := remoteinfo.AsRemoteInfo(rpcinfo.GetRPCInfo(ctx).To()); r != nil {
+			r.SetInstance(discovery.NewInstance("tcp", "127.0.0.1:19019", 10, nil))
+		}
 		switch handler {
-		case "ok":
-			ctx.StatusCode(http.StatusOK)
-			_, _ = ctx.WriteString("ok")
 		case "err":
-			ctx.StatusCode(http.StatusInternalServerError)
-			_, _ = ctx.WriteString("err")
+			return c19ErrHandler
 		case "panic":
 			panic("c19 handler panic")
 		}
+		return nil
 	})
-	if err := app.Build(); err != nil {
-		t.Fatalf("driver set-up: iris app.Build: %v", err)
-	}
 
-	w := httptest.NewRecorder()
-	r := httptest.NewRequest(http.MethodGet, "/c19", nil)
-	c.EscapedPanic = c19Guard(func() { app.ServeHTTP(w, r) })
-	c.Response = strconv.Itoa(w.Code)
-	c.DefaultRejectionSeen = w.Code == http.StatusTooManyRequests
+	var err error
+	c.EscapedPanic = c19Guard(func() { err = h(ctx, "c19 req", "c19 resp") })
+	c.Response = c19ErrText(err)
+	c.DefaultRejectionSeen = c19IsBlockErr(err)
+	c.Notes = "middleware called directly; handler = the wrapped endpoint.Endpoint; ctx has rpcinfo with a RemoteInfo callee (instance set by the handler)"
+	if outlierMode {
+		c.Notes += "; outlier mode: WithEnableOutlier(true) + one outlier rule for the resource (= callee service name); the adapter enters on a private slot chain (BuildDefaultSlotChain), which the recorder on the global slot chain does not see; " + c19NodeCounters(c.Resource)
+	}
 	c19Finish(t, c)
 }
